@@ -1,11 +1,11 @@
 package main
 
 import (
-	"strings"
-	"sort"
 	"fmt"
 	"go/token"
 	"go/types"
+	"sort"
+	"strings"
 
 	"golang.org/x/tools/go/ssa"
 )
